@@ -46,6 +46,11 @@ def props_decode(b, lzma2=False):
         raise FormatError("lc+lp > 4")
     return lc, lp, pb
 
+def liblzma_dict_size(dict_size):
+    """Documented liblzma relaxation (observed on 5.8.1, raw LZMA1 / .lzma decoders): the decoder allocates
+    max(4096, dict_size rounded up to a multiple of 16) and accepts every distance up to that value."""
+    return max(4096, (dict_size + 15) & ~15)
+
 def _st_lit(s):
     return 0 if s < 4 else (s - 3 if s < 10 else s - 6)
 def _st_match(s):
